@@ -145,8 +145,6 @@ def job_layout(job):
                     continue
                 same_out = T.and_many([T.eq(8, T.var('r%d_%d' % (a_, i), 8), T.var('r%d_%d' % (b_, i), 8)) for i in range(256 - (ec + 1), 255)])
                 asm.append(T.implies(same_in, same_out))
-        for x_ in asm:
-            solver.assume(x_)
     syn_, nsolv, fails, unk = discharge(solver, items + pan, assumptions=asm, eval_search=8)
     res['obligations'] = len(items) + len(pan)
     res['panic_obligations'] = len(pan)
